@@ -1,9 +1,9 @@
 SPECIFICATION FairSpec
 CONSTANTS
   Configs <- TheConfigs
-  ScriptLen = 0
-  LongScripts = TRUE
-  Ops <- AllOps
+  ScriptLen = 2
+  LongScripts = FALSE
+  Ops = {"buf", "flush", "close", "big"}
   Formats = {"xml"}
   Comps = {"plain", "gzip", "bzip2"}
   Pools = {TRUE}
@@ -14,5 +14,5 @@ CONSTANTS
   FdFix = TRUE
   GenFormats = {"xml"}
   GenComps = {"plain"}
-  GenScriptLen = 0
+  GenScriptLen = 2
 PROPERTY Termination
